@@ -859,6 +859,22 @@ class World:
             return A * arg_tensor("scale", d[1], n)
         if k == "expand":
             return A.expand(2, *A.shape[-2:]) if A.dim() == 2 else A.expand(*A.shape)
+        if k == "add_diag_op":
+            return A + torch.diag_embed(arg_tensor("diag", d[1], n))
+        if k in ("clone", "detach", "rebuild"):
+            return A
+        if k == "repeat":
+            return A.repeat(2, *([1] * A.dim())) if A.dim() == 2 else A.repeat(2, *([1] * (A.dim() - 1)))
+        if k == "sibling":
+            D = diag_part(self.objs[i])
+            return A if D is None else A + D          # the diagonal part doubled, everything else SHARED
+        if k == "batch_index":
+            if A.dim() < 3:
+                raise ValueError("batch_index on an operator without batch dimensions")
+            bsz = A.shape[0]
+            perm = torch.tensor([(j + 1) % bsz for j in range(bsz)])
+            s1, s2 = slice(1, n), slice(0, n - 1)
+            return [A[perm], A[perm][..., s1, s1], A[1:2][..., s2, s2], A[bsz - 1]][d[1] % 4]
         raise ValueError(d)
 
     def do_derive(self, i, d, seed=0):
@@ -895,6 +911,30 @@ class World:
                 r = op * arg_tensor("scale", d[1], n)
             elif k == "expand":
                 r = op.expand(2, n, n) if not b else op.expand(*op.shape)
+            elif k == "add_diag_op":
+                r = op + self.O.DiagLinearOperator(arg_tensor("diag", d[1], n))
+            elif k == "clone":
+                r = op.clone()
+            elif k == "detach":
+                r = op.detach()
+            elif k == "rebuild":
+                r = op.representation_tree()(*op.representation())
+            elif k == "repeat":
+                r = op.repeat(2, 1, 1) if not b else op.repeat(2, *([1] * (len(b) + 1)))
+            elif k == "sibling":
+                # a second operator of the same class built by the caller around the SAME child operator objects; a
+                # diagonal part, if the class has one, is replaced by its double
+                dt = getattr(op, "_diag_tensor", None)
+                args = [(a * 2.0 if (a is dt and dt is not None) else a) for a in op._args]
+                r = type(op)(*args, **op._kwargs)
+            elif k == "batch_index":
+                if not b:
+                    raise ValueError("batch_index on an operator without batch dimensions")
+                bsz = b[0]
+                perm = torch.tensor([(j + 1) % bsz for j in range(bsz)])
+                s1, s2 = slice(1, n), slice(0, n - 1)
+                r = [lambda: op[perm], lambda: op[perm, s1, s1] if len(b) == 1 else op[(perm,) + (slice(None),) * (len(b) - 1) + (s1, s1)],
+                     lambda: op[(slice(1, 2),) + (slice(None),) * (len(b) - 1) + (s2, s2)], lambda: op[bsz - 1]][d[1] % 4]()
             else:
                 raise ValueError(d)
         except Exception as ex:
